@@ -1,6 +1,32 @@
 /-
   NON-VACUITY AUDIT of the obligation theorems (Properties/C01 … C20, Extracted/EquivC03 … EquivC20).
 
+/-! ### Extracted/EquivC13 -/
+section EquivC13
+open PysparklingVerif.Gen.C13 PysparklingVerif.Extracted.C13
+
+def c13L : List Field := [⟨"k", 0, false⟩, ⟨"a", 1, true⟩]
+def c13R : List Field := [⟨"b", 0, true⟩, ⟨"k", 0, false⟩]
+
+-- NONVACUOUS: PysparklingVerif.Extracted.C13.mergeSchemas_names
+example : (mergeSchemas c13L c13R (toHow .left) (some ["k"])).map names =
+    some (Join.joinNames .left (names c13L) (names c13R) ["k"]) :=
+  mergeSchemas_names .left c13L c13R ["k"] (by decide) (by decide) (by decide) (by decide)
+
+-- NONVACUOUS: PysparklingVerif.Extracted.C13.mergeSchemas_missing_column
+example : mergeSchemas c13L c13R .INNER_JOIN (some ["k", "z"]) = none :=
+  mergeSchemas_missing_column .INNER_JOIN c13L c13R ["k", "z"] "z" (by decide) (Or.inl (by decide))
+
+-- NONVACUOUS: PysparklingVerif.Extracted.C13.full_join_keys_nullable
+example : ∀ f ∈ ([⟨"k", 0, true⟩, ⟨"a", 1, true⟩, ⟨"b", 0, true⟩] : List Field).take 1, f.nullable = true :=
+  full_join_keys_nullable c13L c13R ["k"] _ (by decide)
+
+-- NONVACUOUS: PysparklingVerif.Extracted.C13.how_texts_distinct
+example : How.LEFT_SEMI_JOIN = How.LEFT_SEMI_JOIN := how_texts_distinct _ _ rfl
+end EquivC13
+
+
+
   For EVERY obligation theorem that has hypotheses there is an `example` below (marked `-- NONVACUOUS: <name>`) that
   exhibits concrete, non-trivial arguments — several partitions, failing attempts, non-empty caches, nulls, … — for
   which ALL hypotheses of the theorem hold at once; wherever possible the example APPLIES the theorem to those
@@ -48,6 +74,7 @@ import PysparklingVerif.Extracted.EquivC08
 import PysparklingVerif.Extracted.EquivC09
 import PysparklingVerif.Extracted.EquivC10
 import PysparklingVerif.Extracted.EquivC11
+import PysparklingVerif.Extracted.EquivC13
 import PysparklingVerif.Extracted.EquivC14
 import PysparklingVerif.Extracted.EquivC16
 import PysparklingVerif.Extracted.EquivC17
@@ -1483,6 +1510,7 @@ end EquivC11
 -- NO-HYPOTHESES: PysparklingVerif.Extracted.C12.invertEval_eq
 -- NO-HYPOTHESES: PysparklingVerif.Extracted.C12.null_tests
 -- NO-HYPOTHESES: PysparklingVerif.Extracted.C12.kleene
+-- NO-HYPOTHESES: PysparklingVerif.Extracted.C13.mergeSchemas_cross
 -- NO-HYPOTHESES: PysparklingVerif.Extracted.C14.updateMoments_eq
 -- NO-HYPOTHESES: PysparklingVerif.Extracted.C14.mergeMoments_eq
 -- NO-HYPOTHESES: PysparklingVerif.Extracted.C16.bernoulli_eq
